@@ -129,6 +129,14 @@ def scenario(rng, drv, k, tier):
         callers.append({"name": "A", "mode": "send", "unit": [[rng.choice(["q16", "cfg", "dapc", "qdt6"]), 20]],
                         "start": {"time": round(rng.uniform(0, tend) // 0.001 * 0.001 + 0.000313, 6)},
                         })
+    if drv == "tridonic":
+        q = rng.random()
+        if q < 0.3:
+            # the firmware quirk: a whole exchange of another master reported in response mode, sequence number not outstanding
+            obs = [[t, "q" + kind, v, b] for t, kind, v, b in obs]
+        if callers and rng.random() < 0.3:
+            # the caller gives up in mid-transaction: the rest of its transaction is still bus traffic
+            callers[0]["cancel"] = {"reports": rng.randrange(1, 4)}
     return {"driver": drv, "observe": obs, "subscribers": sorted(subs), "callers": callers, "post_idle": round(tend + 1.0, 6), "idle": round(tend + 1.0, 6),
             "keep_reports": 1, "subinfo": subinfo, "outcomes": [rng.choice([["val", 9], ["none", 0], ["err", 0]])], "tag": "%s:%d" % (drv, k)}
 
